@@ -120,7 +120,7 @@ Ltac serve_tail c ct En El :=
 
 (* the generated handle is the model, without any hypothesis *)
 Lemma handle_tie : forall flt tok c f url,
-  norm_resp (gen_handle (model_lib flt tok) c f url) = resp_of_sout (handle c f url).
+  norm_resp (gen_handle (model_lib flt tok) c f url) = resp_of_sout url (handle c f url).
 Proof.
   intros flt tok c f url. unfold gen_handle, handle. lib. unfold m_canon.
   destruct (unquote url) as [up|k m|]; try reflexivity.
@@ -139,7 +139,7 @@ Proof.
     induction idxs as [|i rest IH].
     + cbn [try_indices]. cbv beta iota. cbn [negb]. cbv iota. unfold listing, m_listing.
       destruct (s_listing c); [|reflexivity].
-      destruct (existsb _ (children f fp)); reflexivity.
+      destruct (Listing.has_broken f fp); reflexivity.
     + cbn [try_indices]. cbv beta iota zeta.
       destruct (pjoin fp i) as [b rel].
       rewrite resolve_fully_tie. unfold nul_guard. cbn [fst snd].
